@@ -24,6 +24,7 @@ def dispatch (op : String) (payload : Json) : R Json :=
   | "annotation" => C11.handleAnnotation payload
   | "file_decision" => C11.handleDecision payload
   | "is_name" => C11.handleIsName payload
+  | "no_crash_shape" => C07.handle payload
   | _ => .error s!"unknown op {op}"
 
 partial def loop (h : IO.FS.Stream) (out : IO.FS.Stream) : IO Unit := do
